@@ -966,6 +966,16 @@ fn branch_cases() -> Vec<(&'static str, &'static str)> {
         ("11", "Ap:60,Kp:77,Wp:9,H:2:71,Z2~1,L2:4,J,Q"),
         ("21", "H:2:71,H:1:70,J,L1:4,!~1,Q"),
         ("21", "L1:5~0,L1:6~1,B1:4~1,Q"),
+        // subscriptions persisted in one boot, resumed in the next, and THERE their fabric goes away: the slots must
+        // follow the table; restart; the index is handed out again; restart (with / without a new subscription)
+        ("21", "D1:3,D2:4,Q,X1:2,Q,P,Ap:60,Kp:77,Z2,Q"),
+        ("21", "D1:3,D2:4,Q,X1:2,Q,P,Ap:60,Kp:77,Z2,D2:4,Q,D1:6,Q"),
+        ("21", "D2:4,D1:3,Q,X2:2,Q,P,Ap:60,Kp:77,Z2,Q"),
+        ("21", "D1:3,D2:4,Q,X1:2~3,Q,D1:5,Q"),
+        ("21", "D1:3,D2:4,Q,X1:2~6,P,Ap:60,Kp:77,Z2,Q"),
+        ("21", "D1:3,D2:4,Q,D1:5,Q,X2:1,Q,X2:2,Q"),
+        ("i7:1", "Ap:60,Kp:71,Z8,D7:3,D8:4,Q,X7:8,Q,P,Ap:60,Kp:72,Z8,Q"),
+        ("11", "D1:3,Q,Ap:60,Kp:77,D2:4,E,Q,P,Ap:60,Kp:78,Z2,Q"),
     ]
 }
 
@@ -1251,6 +1261,67 @@ fn generate(tier: &str, seed: u64) -> (Vec<String>, String) {
             }
             if rng.chance(1, 2) {
                 v.push("J".into());
+            }
+            v.push("Q".into());
+        }
+        lens += v.len();
+        let init = match start.as_slice() {
+            [1, 2] => "21".to_string(),
+            l => format!("i{}:1", l.iter().map(|x| x.to_string()).collect::<Vec<_>>().join("+")),
+        };
+        cases.push(format!("S {} {} {}", nid(), init, v.join(",")));
+    }
+    // the subscription slots across restarts: subscriptions made in one boot, resumed in the next, their fabric removed
+    // there (whole, or cut by a power loss), restart, the index commissioned again, restart
+    let n_subs = if thorough { 500 } else { 40 };
+    for _ in 0..n_subs {
+        let start: Vec<u64> = match rng.below(4) {
+            0 => vec![1, rng.range(3, 250)],
+            _ => vec![1, 2],
+        };
+        let mut table: Vec<u64> = start.clone();
+        let mut v: Vec<String> = Vec::new();
+        if rng.chance(1, 2) {
+            let next = table.iter().max().unwrap() + 1;
+            v.extend(["P".to_string(), "Ap:60".to_string(), format!("Kp:{}", 70 + rng.below(9)), format!("Z{}", next)]);
+            table.push(next);
+        }
+        let rounds = rng.range(1, 4);
+        for r in 0..rounds {
+            let mut order = table.clone();
+            if rng.chance(1, 2) {
+                order.reverse();
+            }
+            for f in order {
+                if rng.chance(4, 5) {
+                    v.push(format!("D{}:{}", f, 1 + rng.below(9)));
+                }
+            }
+            if rng.chance(4, 5) {
+                v.push("Q".into());
+            }
+            if table.len() < 2 {
+                break;
+            }
+            let g = if rng.chance(2, 3) { *table.iter().max().unwrap() } else { *rng.pick(&table) };
+            let by = if rng.chance(3, 4) { *table.iter().find(|x| **x != g).unwrap() } else { g };
+            let cut = if rng.chance(1, 3) { Some(1 + rng.below(8)) } else { None };
+            v.push(match cut {
+                Some(j) => format!("X{}:{}~{}", by, g, j),
+                None => format!("X{}:{}", by, g),
+            });
+            table.retain(|x| *x != g);
+            if rng.chance(2, 3) {
+                v.push("Q".into());
+            }
+            if rng.chance(3, 4) {
+                let mx = table.iter().max().copied().unwrap_or(0);
+                let next = if mx < 254 { mx + 1 } else { (1..255).find(|i| !table.contains(i)).unwrap() };
+                v.extend(["P".to_string(), "Ap:60".to_string(), format!("Kp:{}", 80 + r), format!("Z{}", next)]);
+                table.push(next);
+                if rng.chance(1, 3) {
+                    v.push(format!("D{}:{}", next, 1 + rng.below(9)));
+                }
             }
             v.push("Q".into());
         }
